@@ -127,6 +127,26 @@ func c02Docs(rng *rand.Rand, nRandom int) []c02Doc {
 				"application/vnd.acme.https-report+json": map[string]any{"schema": obj}, "application/vnd.acme.apis.ipv6+json": map[string]any{"schema": obj}}},
 			"responses": map[string]any{"204": map[string]any{"description": "d"}}}}
 	}), ""})
+	// "(or the identical error)": documents on which generation FAILS at several places at once - whichever entry of a map
+	// the generator meets first, the error must be the same text
+	bad := map[string]any{"type": "string", "x-go-type": "uuid.UUID", "x-go-type-import": "github.com/google/uuid"} // the import must be a mapping
+	holder := func(schemas map[string]any) []byte {
+		refs := map[string]any{}
+		for n := range schemas {
+			refs[strings.ToLower(n)] = map[string]any{"$ref": "#/components/schemas/" + n}
+		}
+		schemas["Holder"] = map[string]any{"type": "object", "properties": refs}
+		b, _ := json.Marshal(map[string]any{"openapi": "3.0.3", "info": map[string]any{"title": "bad", "version": "1"},
+			"paths": map[string]any{"/h": map[string]any{"get": map[string]any{"operationId": "getH", "responses": map[string]any{"200": map[string]any{"description": "d",
+				"content": map[string]any{"application/json": map[string]any{"schema": map[string]any{"$ref": "#/components/schemas/Holder"}}}}}}}},
+			"components": map[string]any{"schemas": schemas}})
+		return b
+	}
+	docs = append(docs, c02Doc{"four component schemas with a malformed x-go-type-import", holder(map[string]any{"Alpha": bad, "Beta": bad, "Gamma": bad, "Delta": bad}), ""})
+	docs = append(docs, c02Doc{"four properties with a malformed x-go-type-import", holder(map[string]any{"Box": map[string]any{"type": "object",
+		"properties": map[string]any{"north": bad, "south": bad, "east": bad, "west": bad}}}), ""})
+	docs = append(docs, c02Doc{"two schemas that normalise to one type name, twice over", holder(map[string]any{"foo_bar": map[string]any{"type": "object"}, "FooBar": map[string]any{"type": "object"},
+		"baz_qux": map[string]any{"type": "object"}, "BazQux": map[string]any{"type": "object"}}), ""})
 	for i := 0; i < nRandom; i++ {
 		d, _ := gendoc.Generate(rng, tameOpts())
 		docs = append(docs, c02Doc{fmt.Sprintf("random#%d", i), d.JSON(), ""})
@@ -307,7 +327,7 @@ func runC02(r *Report, rng *rand.Rand, thorough bool) {
 			}
 		}
 	}
-	r.Rule = fmt.Sprintf("each (document, configuration, skip-fmt) generated %d+ times in one process (every second time after a generation of the same document under another configuration: name normaliser, suffix and client type name, import mapping; three times from one loaded document value), in fresh processes (fresh hash seeds) and from %d random permutations of every JSON object's members; all outputs (or error strings) must be byte-identical; documents: one wide document with >= 3 entries in every map the generator walks (paths, operations, properties, content types, responses, headers, import mappings, discriminator mappings, x-go-type imports, encodings, security requirements, extensions; sibling property names that differ only in letter case), its variants with known order dependences, and random documents; non-trivial = generation succeeds", kIn+1, kPerm)
+	r.Rule = fmt.Sprintf("each (document, configuration, skip-fmt) generated %d+ times in one process (every second time after a generation of the same document under another configuration: name normaliser, suffix and client type name, import mapping; three times from one loaded document value), in fresh processes (fresh hash seeds) and from %d random permutations of every JSON object's members; all outputs (or error strings) must be byte-identical; documents: one wide document with >= 3 entries in every map the generator walks (paths, operations, properties, content types, responses, headers, import mappings, discriminator mappings, x-go-type imports, encodings, security requirements, extensions; sibling property names that differ only in letter case), its variants with known order dependences, three documents on which generation fails at several places at once (the error text must be identical), and random documents; non-trivial = generation succeeds", kIn+1, kPerm)
 }
 
 func onlyImportOrderDiffers(outs map[string]int) bool {
